@@ -157,9 +157,10 @@ fn exec_period_batch(b: &PeriodBatch) -> Outcome {
 }
 
 pub fn run(ctx: &Ctx, rep: &mut Report) {
-	rep.rule = "periods: batches of 50 strings from the grammar (\\d+[smhdw]){1,6} with numbers weighted to the 64-bit edges, plus noise and single-character mutations, judged against an independent u128 reference parser (accepted <=> in the grammar and representable; value = sum of parts; never a crash); a batch is non-trivial when it holds a multi-part or an overflowing period. configurations: see sections.".into();
+	rep.rule = "periods: batches of 50 strings from the grammar (\\d+[smhdw]){1,6} with numbers weighted to the 64-bit edges, plus noise and single-character mutations, judged against an independent u128 reference parser (accepted <=> in the grammar and representable; value = sum of parts; never a crash); a batch is non-trivial when it holds a multi-part or an overflowing period. configurations (one process per case): hazard catalogue (group cycles of length 1..3, used/unused, deep nesting; rate limits with number 0 / huge / period edges; overflowing periods at every level; modes out of range; empty identifier lists; bad templates; include cycles, directories, missing files, invalid globs, malformed and binary included files) run through the probe (load + first pass through the limiter) AND the real daemon; field-by-field mutants of a full valid configuration (every path x {delete, duplicate, 20 replacement values of other types / boundary and huge numbers / empty strings / bad templates / overflowing periods, unknown key}; quick: a rotating third); 90 truncated or corrupted configuration texts. Outcome must be: loads (and the first request is admitted within 3.5 s when the limits predict <= 3 s) or rejected with a non-empty message; a signal, a panic or a withheld first request is a violation. Every configuration case is non-trivial.".into();
 	rep.assume("a panic of the dev-profile build (overflow checks on) is a crash of the shipped code path or a silently wrong value in release; either violates the property");
 	run_replays::<PeriodBatch>(ctx, rep, "period", &exec_period_batch);
+	super::c19cfg::run_configs(ctx, rep);
 	if ctx.replay.is_some() {
 		return;
 	}
